@@ -19,7 +19,10 @@ CORR_IMPORTS = ['QV.C20.Model', 'QV.C20.Spec', 'QV.C20.Corr']
 CHECK_CORR = 'check_corr'
 CHECK_SPEC = 'check_spec'
 SHARD = 300
-RULE = ('kinds: volt (amplitude 2^k or (2^res-1)*2^k so that the float computation is exact; voltages at exact half '
+RULE = ('kinds: volt_tol = TOLERANCE STREAM, counted apart (never non-trivial, own histogram key): decimal amplitudes / '
+        'offsets / voltages (binary64 values of decimal strings, handed exactly to the model), codes accepted within '
+        '1/2 + 2^-30 of the exact scaled voltage, range / monotonicity / rejection / identity of the variants exact.  '
+        'Exact kinds: volt (amplitude 2^k or (2^res-1)*2^k so that the float computation is exact; voltages at exact half '
         'steps, range ends, one grid step inside/outside the range, random dyadics; resolution 1..16, and <1 as malformed), '
         'mono, win (time windows unsorted / tied begins / begins at exact half samples / lengths at and just below an '
         'integer number of samples), shrink (integer windows sorted, touching, overlapping, nested, zero-length, unsorted; '
@@ -33,7 +36,10 @@ RULE = ('kinds: volt (amplitude 2^k or (2^res-1)*2^k so that the float computati
         'canonical JSON of the case.')
 TRUSTED = [
     'Coq 8.16.1 kernel + vm_compute (no native_compute)',
-    'translator /verif/translate/py2gallina.py + py2gallina_c20.py (fail-closed; output re-proved equal to the clean model on every run)',
+    'translator /verif/translate/py2gallina_c20.py (typed Z/Q/bool/arrays, canonical loop state by liveness; fail-closed; output '
+    're-proved equal to the clean model on every run) incl. its reading of numpy calls: np.rint/round = half-even, '
+    'np.uintNN(float) = truncation without wrap-around, float arithmetic read as exact rational arithmetic, declared '
+    'element kinds of unannotated array parameters (GEN table in the harness)',
     'numpy: elementwise float arithmetic is exact on the generated (dyadic) inputs; rint = half-to-even; searchsorted; '
     'binary64 rounding itself is NOT modelled',
     'Waveform.get_sampled is the sampling function of a waveform (its own contract is property C08); the harness samples '
@@ -46,6 +52,9 @@ ASSUMPTIONS = [
     'begins/lengths arrays have equal length; integer windows are int64/uint64 arrays',
     'average_windows: time array sorted (documented precondition), no NaN',
     'sample rate and amplitudes are powers of two in the sampling cases so that float division is exact',
+    'binary64 theorems (C20_float_*): Flocq format FLT(-1074, 53), round-to-nearest-even, overflow not modelled; they rest '
+    'on the real-number axioms of the standard library (sig_forall_dec, sig_not_dec, functional_extensionality_dep, classic)',
+    'tolerance stream: voltages stay 1e-6*amplitude away from the range ends (the float range test may go either way there)',
 ]
 
 GEN = [   # (generated file, source file in the repo, kernels, declared element kinds of unannotated / ndarray parameters)
@@ -1087,17 +1096,23 @@ MANIFEST = {
                   'rejected; window conversion sorts by begin, rounds begins half-to-even and floors lengths; shrinking keeps '
                   'every end, moves begins only forward and leaves the windows disjoint; numpy and loop variants of '
                   'voltage_to_uint16, is_monotonic, time_windows_to_samples and shrink_overlapping_windows are equal for all '
-                  'inputs; _average_windows_numpy is the mean over begin <= t < end on sorted time.  The two loop kernels '
-                  '_is_monotonic_numba and _shrink_overlapping_windows_numba are re-translated from /repo on every run and '
-                  're-proved equal to the model.  Partial: equality of the average_windows variants is refuted (known '
-                  'finding, nested windows) and its guarded form is only tested; the ProgramEntry sampling clause '
-                  '(flat-memory model = (T(sample)-offset)/amplitude at k/rate, markers != 0) is stated but only tested '
-                  '(model vs implementation and implementation vs formula on every run).',
-    'level_note': 'Trusted: Coq kernel, the translator and its C20 extension, numpy elementwise float arithmetic on dyadic '
-                  'inputs (binary64 rounding is not modelled), Waveform.get_sampled as the sampling function, harness.  Models '
-                  'are tied to /repo by an exact correspondence check that calls both internal implementations of every '
-                  'routine and the public entry point.',
-    'technique': 'Coq proof over hand-written + AST-translated kernels, correspondence check (vm_compute) against both '
-                 'numpy and loop variants',
+                  'inputs; _average_windows_numpy is the mean over begin <= t < end on sorted time, and so is the two-pointer '
+                  'loop _average_windows_numba when the windows are sorted by begin and by end (proved; without that guard the '
+                  'equality is refuted: known finding, nested windows); ProgramEntry._sample_waveforms: the flat-memory model '
+                  '(compact rows, segment offsets, views read after all writes) equals the direct formula '
+                  '(T(sample)-offset)/amplitude at k/rate, markers != 0, for all inputs incl. the error cases (proved).  Five '
+                  'kernels (_is_monotonic_numba, _shrink_overlapping_windows_numba, _time_windows_to_samples_sorted_numba, '
+                  '_voltage_to_uint16_numba, not_none_indices) are re-translated from /repo on every run and re-proved equal '
+                  'to the model.  Separately labelled binary64 theorems (Flocq): the float computation of the code is monotone '
+                  'and equals the exact code unless a half-way point lies between exact and float scaled voltage.  Not '
+                  'translated: _average_windows_numba (nested while loops with short-circuit subscripts, 2-D arrays); no '
+                  'quantitative bound on the float error of the scaled voltage.',
+    'level_note': 'Trusted: Coq kernel, the C20 translator (incl. its reading of numpy calls and float arithmetic as exact '
+                  'rationals), numpy elementwise float arithmetic on dyadic inputs, Waveform.get_sampled as the sampling '
+                  'function, harness.  Models are tied to /repo by an exact correspondence check that calls both internal '
+                  'implementations of every routine and the public entry point; decimal (inexact) voltages run as a separate '
+                  'tolerance stream.',
+    'technique': 'Coq proof over hand-written + AST-translated kernels (text-independent simulation proofs), correspondence '
+                 'check (vm_compute) against both numpy and loop variants, Flocq for the binary64 statements',
     'design_ref': 'DESIGN.md §5 C20',
 }
